@@ -215,7 +215,7 @@ PROPS = {
         not_yet_proved=[],
     ),
     "C18": dict(
-        extra_modules=["CstModel.Proofs.DataSlot"],
+        extra_modules=["CstModel.Props.GenData", "CstModel.Proofs.DataSlot"],
         tags=["C18", "C08"],   # the marker probes run here too: data is handed out as a shared `Arc<D>`
         runs=runs([("conc:data", "release"), ("probe:c08", "rustc")],
                   [("conc:data", "release"), ("conc:data", "debug"), ("probe:c08", "rustc")]),
